@@ -29,7 +29,8 @@ Proof.
   - destruct sh as [|a [|b [|c [|t [|v r]]]]]; cbn [length]; try discriminate.
     + unfold last_singular. cbn [length seq combine fold_left fst snd].
       destruct (c =? 1) eqn:Ec; [|destruct (b =? 1) eqn:Eb; [|destruct (a =? 1) eqn:Ea]];
-        intros [= <-]; (split; [lia|]); intros _; cbn [nth]; try (apply Nat.eqb_eq; assumption). cbn [length]. lia.
+        intros [= <-]; (split; [lia|]); cbn [length nth]; intros Hl;
+        try (apply Nat.eqb_eq; assumption); lia.
     + intros [= <-]. split; [lia|]. cbn [length]. lia.
 Qed.
 
@@ -135,7 +136,7 @@ Section C03.
       injection E as <- <-. cbn zeta in Hf. congruence.
     - intros Hn. destruct (merge_img_at unitv (im0 :: rest) dim) as [r|e] eqn:E.
       + exfalso. apply Hn, Hiff.
-        destruct (merge_img_at_ok unitv _ _ _ E) as (a & b & E' & Hok & _). injection E' as <- <-. exact Hok.
+        destruct (merge_img_at_ok unitv _ _ _ E) as (ia & ib & E' & Hok & _). injection E' as <- <-. exact Hok.
       + destruct (merge_img_at_err unitv _ _ _ E) as [[-> _]|[-> [E'|[Hd Hl]]]]; [reflexivity | discriminate E'|].
         exfalso. apply Hn. destruct rest; [|discriminate Hl]. split.
         * intros i Hi. cbn [length] in Hi. assert (i = 0) by lia. subst i. cbn [nth].
@@ -162,9 +163,9 @@ Section C03.
       + unfold from_sequence_img in Hr. rewrite Er in Hr. cbn [bind] in Hr.
         destruct (resolve_merge_dim_ok _ _ _ Er) as [_ Hs].
         apply (inputs_okb_mergeable im0 rest dim (length (im0 :: rest)) Hu Hs).
-        destruct (merge_img_at_ok unitv _ _ _ Hr) as (a & b & E' & Hok & _). injection E' as <- <-. exact Hok.
+        destruct (merge_img_at_ok unitv _ _ _ Hr) as (ia & ib & E' & Hok & _). injection E' as <- <-. exact Hok.
       + unfold from_sequence_img in Hr. rewrite Er in Hr. cbn [bind] in Hr. congruence.
     - intros Hm. destruct (from_sequence_img unitv (im0 :: rest) odim) as [r|e] eqn:E; [eauto|].
-      pose proof (Herr e E) as ->. apply Href in E. contradiction.
+      pose proof (Herr e eq_refl) as ->. exfalso. apply (proj1 Href eq_refl), Hm.
   Qed.
 End C03.
